@@ -5657,6 +5657,14 @@ public:
             return true;
         }
 
+        if(is_flat_group<T>::value && (*header.blockLength() == 0))
+        {
+            // entries of a flat group with zero `blockLength` occupy no space,
+            // there's nothing to validate. Iterating over them would take time
+            // proportional to `numInGroup`, not to the buffer size
+            return !is_valid();
+        }
+
         const auto prev_block_length =
             set_group_block_length(*header.blockLength());
         sbepp::visit_children(g, c, *this);
